@@ -14,7 +14,12 @@ import json, os, re, shutil, subprocess, sys
 
 ENV = dict(os.environ, GOFLAGS="-mod=mod", GOPROXY="off", GOSUMDB="off", GOTOOLCHAIN="local")
 WORK = "/tmp/sv/work"
-EXTRA = {"C01b": ["C10", "C05"], "C05b": ["C10", "C01"], "C09b": ["C10"], "C06b": ["C01"], "C15b": ["C06", "C07"], "C02a": ["C05"], "C05a": ["C02"], "C03a": ["C05"]}
+SEEDROOT = os.environ.get("SEEDROOT", "/tmp/seed")   # round 1: /tmp/seed (tags a, b); round 2: /tmp/seed2 (tags c, d)
+TAGMAP = {"a": "a", "b": "b"} if SEEDROOT == "/tmp/seed" else {"a": "c", "b": "d"}
+EXTRA = {"C11c": [], "C01c": ["C06", "C08"], "C01d": ["C06", "C08"], "C05c": ["C02", "C03"], "C05d": ["C02", "C03"], "C08c": ["C01", "C09"], "C08d": ["C01", "C09"], "C09c": ["C08", "C10"], "C09d": ["C08", "C10"],
+         "C06c": ["C01", "C07"], "C06d": ["C01", "C07"], "C07c": ["C06", "C01"], "C07d": ["C06", "C01"], "C10c": ["C09"], "C10d": ["C09"], "C12c": ["C13"], "C12d": ["C13"], "C13c": ["C12", "C15"], "C13d": ["C12", "C15"],
+         "C14c": ["C15"], "C14d": ["C15"], "C15c": ["C14", "C13"], "C15d": ["C14", "C13"], "C02c": ["C05"], "C02d": ["C05"], "C03c": ["C05"], "C03d": ["C05"], "C04c": ["C16"], "C04d": ["C16"], "C16c": ["C04", "C17"], "C16d": ["C04", "C17"],
+         "C17c": ["C16"], "C17d": ["C16"], "C18c": ["C09", "C10"], "C18d": ["C09", "C10"],"C01b": ["C10", "C05"], "C05b": ["C10", "C01"], "C09b": ["C10"], "C06b": ["C01"], "C15b": ["C06", "C07"], "C02a": ["C05"], "C05a": ["C02"], "C03a": ["C05"]}
 
 
 def sh(cmd, cwd=None, timeout=1800):
@@ -51,10 +56,10 @@ def main():
     for i in range(1, 21):
         pid = "C%02d" % i
         for x in "ab":
-            tag = pid + x
+            tag = pid + TAGMAP[x]
             if only and tag not in only:
                 continue
-            src = f"/tmp/seed/{pid}/SEED/{x}"
+            src = f"{SEEDROOT}/{pid}/SEED/{x}"
             if not os.path.isdir(src):
                 continue
             meta = json.load(open(f"{src}/meta.json"))
@@ -72,7 +77,7 @@ def main():
                 print(tag, "does not apply")
                 continue
             ddir = meta.get("demo_package_dir", ".")
-            ddir = re.sub(r"^/tmp/seed/C\d\d/?", "", ddir).strip("/") or "."
+            ddir = re.sub(r"^/tmp/seed2?/C\d\d/?", "", ddir).strip("/") or "."
             if ddir.startswith("(") or " " in ddir:
                 ddir = "."
             demo_src = open(f"{src}/demo_test.go").read()
